@@ -2,7 +2,7 @@
    Only statements; proofs are [exact <lemma>] from Send/RouteProofs.v.
    Models (Send/Route.v): qmail-send.c addbounce() text, stripvdomprepend(), injectbounce()'s
    choice of envelope. *)
-From NQ Require Import Send.Route Send.RouteProofs.
+From NQ Require Import Send.Route Send.RouteProofs Send.RouteCorollaries.
 Local Open Scope N_scope.
 
 (* pstarts LF LF t counts the paragraph starts of t: non-LF bytes directly after a blank line
@@ -54,3 +54,24 @@ Example paragraph_nonvacuous :
   addbounce_text [114; 10; 64; 120] [98; 10; 10; 10; 60; 118; 62; 58; 10; 10] =
   [60;114;95;64;120;62;58;10; 98;10;47;47;60;118;62;58;10;10; 10].
 Proof. vm_compute. reflexivity. Qed.
+
+(* the recipient named in the notice is the address with the virtual-domain tag removed: exactly when the tag came
+   from a domain, wildcard or catch-all entry.  (A full-address entry is NOT undone: recorded finding
+   bounce:full-address-vdom-prefix-kept, witnessed below.) *)
+Theorem strip_undoes_virtual_domain_tag : forall c box dom x,
+  no_at dom -> pct_idle c box dom ->
+  cm_lookup (vdoms c) (box ++ AT :: dom) = None ->
+  let addr := box ++ AT :: dom in
+  rewrite c addr = Local (x ++ [DASH] ++ addr) ->
+  stripvdomprepend c (x ++ [DASH] ++ addr) = addr.
+Proof. exact strip_roundtrip_l. Qed.
+Print Assumptions strip_undoes_virtual_domain_tag.
+Theorem strip_roundtrip_exactly_when : forall c box dom x,
+  no_at dom -> x <> [] ->
+  (stripvdomprepend c (x ++ [DASH] ++ box ++ AT :: dom) = box ++ AT :: dom <-> first_key c (dom_keys dom) = Some x).
+Proof. exact strip_roundtrip_iff_l. Qed.
+Print Assumptions strip_roundtrip_exactly_when.
+Example full_address_entry_prefix_kept_refuted :
+  let c := {| envnoathost := []; locals := []; percenthack := []; vdoms := [([97;64;98], [117])] |} in      (* a@b:u *)
+  rewrite c [97;64;98] = Local [117;45;97;64;98] /\ stripvdomprepend c [117;45;97;64;98] = [117;45;97;64;98].
+Proof. vm_compute. split; reflexivity. Qed.
